@@ -100,7 +100,9 @@ class Model(object):
                 ch = self._build(c, n)
                 n.children[ch.name] = ch
             return n
-        return MSec(spec["name"], parent, spec.get("cls", "Security"), spec.get("mult", 1.0))
+        ms = MSec(spec["name"], parent, spec.get("cls", "Security"), spec.get("mult", 1.0))
+        ms.par_notional = bool(spec.get("fi_flag", True))  # coupon-paying securities can be built with fixed_income=False
+        return ms
 
     def node(self, path, create_cls=None, mult=1.0):
         n = self.root
@@ -151,7 +153,7 @@ class Model(object):
             if n.cls in HEDGE:
                 return 0.0
             if n.cls in FI_POS:
-                return n.pos
+                return n.pos  # (also for a coupon-paying security built with fixed_income=False: that flag only changes how it is rebalanced)
             return self.value(n)
         return sum(abs(self.notional(c)) for c in n.children.values())
 
